@@ -23,13 +23,12 @@
                  front matter (the first conjunct of [C17_full_statement]), and a blank or
                  comment-only line at any place between blocks, with or without a front matter
                  (its last conjunct; the inserted line must not be the comment "---").
-                 For inserted comments and the trailing ` --c` (not one-to-one on tokens), at
-                 BLOCK level: the metadata line, the section line, step blocks without component
-                 markers and paragraph blocks ([esim]: a comment after any word, blanks and
-                 comments appended at the end of the block).
+                 For comments after ANY word and blanks / comments appended at the end of a block
+                 ([esim], general [tsim]), at BLOCK level: the metadata line, the section line, step
+                 blocks without component markers and paragraph blocks.
 
-                 A block comment directly after a word, before a blank, outside braces: a
-                 relational Hoare logic (Proofs/EditIns*.v, [jsim], [HJ]) through every function,
+                 A block comment directly after a word or a number token, before a blank, outside
+                 braces: a relational Hoare logic (Proofs/EditIns*.v, [jsim], [HJ]) through every function,
                  components included (the two runs are briefly out of step after a one-word
                  component), block splitting, and documents: [C17_mid_comment_events(_fm)].
 
@@ -47,12 +46,22 @@
                  before the repair 200c896 comments included ([C17_text_mode_refuted_before_fix],
                  a defect found here), now without them ([C17_strip_mid_comment], [C17_strip_crlf]).
 
-   NOT proved: the trailing ` --c` / trailing blanks at document level and inside step blocks with
-   components (block level only: metadata line, section line, marker-free step, paragraph), the
-   blank-on-both-sides comment variant, comments after a number token, text mode at document level.
-   These are decided on every run by the metamorphic monitor of checks/c17.py on the implementation
-   (text-mode readings included), the model being held to the implementation on the edited texts by
-   the L-lex/L-ev correspondence. *)
+   trailing edit  (Proofs/EditTrail*.v) U+0020s and / or a line comment appended at the end of ANY line -
+                 before LF, CRLF or the end of the input; inside a step, a component name, an alias, a
+                 note, a quantity, a modifier group, a metadata line, a section header, a paragraph; the line
+                 may already end with blank space.  A second relational Hoare logic ([wsimb], [WL]) through every
+                 parser function, block splitting, documents with and without a front matter:
+                 [C17_trailing_comment_events(_fm)] (same observation, same validity: [ev_equiv_v]) and, with
+                 the analysis pass proved blind up to the normal form [rnorm] ("up to whitespace inside step
+                 text", [C17_analysis_wblind]), [C17_trailing_comment_recipe(_fm)] about CooklangParser::parse:
+                 same normal form of the recipe, same validity, same panic site, EQUAL metadata map.
+                 The statement says "trailing spaces": with a trailing TAB the generalisation is false, on the
+                 model and on the implementation ([C17_trailing_tab_refuted]: the TAB of a line end inside a
+                 component that wraps stays in its name).
+
+   NOT proved: the blank-on-both-sides comment variant, text mode at document level.  These are decided on every run by the metamorphic monitor of checks/c17.py on the
+   implementation (text-mode readings included), the model being held to the implementation on the
+   edited texts by the L-lex/L-ev correspondence. *)
 From Coq Require Import Permutation.
 From CL Require Import Base.StrLemmas Model.Lexer Model.PText Model.CommentMask Model.Parser Model.Edits
   Proofs.LexerProofs Proofs.MaskProofs Proofs.MaskGen Proofs.EditProofs Proofs.EditParserProofs Proofs.EditLink
@@ -505,7 +514,8 @@ Print Assumptions C17_extra_line_events_fm.
 
 (* ---------------------------------------------------------------- a block comment after a word *)
 (* [jsim]: the right token list is the left one with block comment tokens inserted directly after
-   a word token and directly before a blank token, outside `{...}` (token-level bracket state).
+   a word or number token ([is_single_word_tok]) and directly before a blank token, outside `{...}`
+   (token-level bracket state).
    The relational Hoare logic of Proofs/EditIns*.v: [HJ P m1 m2 Q]; [St jany] = the two runs are
    in step, [St anyR] = in step or the left run before the blank and the right one before the
    inserted comment; [CP erel anyR] = both fail (events related) or both succeed with equal events. *)
@@ -534,11 +544,13 @@ Theorem C17_blocks_jsim :
 Proof. exact blocks_jsim. Qed.
 Print Assumptions C17_blocks_jsim.
 
-(* document level: [a | b] is a token boundary, the last token of [a] is a word, the first token
-   of [b] a blank, and the boundary is not inside braces ([mode_after MOut p = MOut]).  These are
-   the places where the monitor puts the unspaced comment: step text, paragraph text, metadata
-   keys and values, section names, component names, aliases, notes, after a one-word component
-   (the monitor also uses positions after a number token; those are not covered).  The hypothesis
+(* document level: [a | b] is a token boundary, the last token of [a] is a word or a number, the
+   first token of [b] a blank, and the boundary is not inside braces ([mode_after MOut p = MOut]).
+   These are the places where the monitor puts the unspaced comment: step text (between the value and
+   the unit of an inline quantity too: `180[-c-] °C` - the text is assembled without the comment, so
+   the events are the same and nothing is assumed about the inline-quantity oracle), paragraph text,
+   metadata keys and values, section names, component names, aliases, notes, after a one-word
+   component.  The hypothesis
    on the edited source is needed: a form feed is a word character for the lexer and blank space
    for the fence test, so "---<FF> " is a fence line with a word in it. *)
 Theorem C17_mid_comment_events :
@@ -547,7 +559,7 @@ Theorem C17_mid_comment_events :
     parse_frontmatter cfg (a ++ b) = None -> parse_frontmatter cfg (a ++ block_comment_text c ++ b) = None ->
     lex_at U a 0 = Some (p ++ [wd]) -> lex_at U b (blen a) = Some (ws :: tb') ->
     lex_at U (a ++ b) 0 = Some ((p ++ [wd]) ++ ws :: tb') ->
-    kind wd = KWord -> kind ws = KWs -> mode_after MOut p = MOut ->
+    is_single_word_tok (kind wd) = true -> kind ws = KWs -> mode_after MOut p = MOut ->
     ev_equiv (events U cfg (a ++ block_comment_text c ++ b)) (events U cfg (a ++ b)).
 Proof.
   intros cfg a b c p wd ws tb' Hs Hc F1 F2 La Lb Lab Kw Ks Hm. apply OR_same_equiv; [exact Hs|].
@@ -561,7 +573,7 @@ Theorem C17_mid_comment_events_fm :
     parse_frontmatter cfg s = Some fm -> cook_text fm = a ++ b -> a ++ b <> [] ->
     lex_at U a (cook_off fm) = Some (p ++ [wd]) -> lex_at U b (cook_off fm + blen a) = Some (ws :: tb') ->
     lex_at U (a ++ b) (cook_off fm) = Some ((p ++ [wd]) ++ ws :: tb') ->
-    kind wd = KWord -> kind ws = KWs -> mode_after MOut p = MOut ->
+    is_single_word_tok (kind wd) = true -> kind ws = KWs -> mode_after MOut p = MOut ->
     ev_equiv (events U cfg (take_bytes s (cook_off fm) ++ a ++ block_comment_text c ++ b)) (events U cfg s).
 Proof.
   intros cfg s fm a b c p wd ws tb' Hs Hc F C Hne La Lb Lab Kw Ks Hm. apply OR_same_equiv; [exact Hs|].
@@ -574,9 +586,21 @@ Example C17_mid_comment_hypotheses_satisfiable :
   exists p wd ws tb',
     lex_at U [65; 100; 100; 32; 64; 115; 97; 108; 116] 0 = Some (p ++ [wd])
     /\ lex_at U [32; 97; 110; 100] 9 = Some (ws :: tb')
-    /\ kind wd = KWord /\ kind ws = KWs /\ mode_after MOut p = MOut.
+    /\ is_single_word_tok (kind wd) = true /\ kind ws = KWs /\ mode_after MOut p = MOut.
 Proof.
   eexists [_; _; _], _, _, _. split; [vm_compute; reflexivity|]. split; [vm_compute; reflexivity|].
+  repeat split.
+Qed.
+
+(* ... also after a number: "Bake at 180" | " C now", the comment between the value and the unit of
+   an inline quantity *)
+Example C17_mid_comment_number_satisfiable :
+  exists p wd ws tb',
+    lex_at U [66; 97; 107; 101; 32; 97; 116; 32; 49; 56; 48] 0 = Some (p ++ [wd])
+    /\ lex_at U [32; 67; 32; 110; 111; 119] 11 = Some (ws :: tb')
+    /\ kind wd = KInt /\ is_single_word_tok (kind wd) = true /\ kind ws = KWs /\ mode_after MOut p = MOut.
+Proof.
+  eexists [_; _; _; _], _, _, _. split; [vm_compute; reflexivity|]. split; [vm_compute; reflexivity|].
   repeat split.
 Qed.
 
@@ -607,14 +631,14 @@ Theorem C17_edit_invariant_partial :
          parse_frontmatter cfg (a ++ b) = None -> parse_frontmatter cfg (a ++ block_comment_text c ++ b) = None ->
          lex_at U a 0 = Some (p ++ [wd]) -> lex_at U b (blen a) = Some (ws :: tb') ->
          lex_at U (a ++ b) 0 = Some ((p ++ [wd]) ++ ws :: tb') ->
-         kind wd = KWord -> kind ws = KWs -> mode_after MOut p = MOut ->
+         is_single_word_tok (kind wd) = true -> kind ws = KWs -> mode_after MOut p = MOut ->
          ev_equiv (events U cfg (a ++ block_comment_text c ++ b)) (events U cfg (a ++ b)))
     /\ (forall s fm a b c p wd ws tb',
          no_close c = true ->
          parse_frontmatter cfg s = Some fm -> cook_text fm = a ++ b -> a ++ b <> [] ->
          lex_at U a (cook_off fm) = Some (p ++ [wd]) -> lex_at U b (cook_off fm + blen a) = Some (ws :: tb') ->
          lex_at U (a ++ b) (cook_off fm) = Some ((p ++ [wd]) ++ ws :: tb') ->
-         kind wd = KWord -> kind ws = KWs -> mode_after MOut p = MOut ->
+         is_single_word_tok (kind wd) = true -> kind ws = KWs -> mode_after MOut p = MOut ->
          ev_equiv (events U cfg (take_bytes s (cook_off fm) ++ a ++ block_comment_text c ++ b)) (events U cfg s)).
 Proof.
   intros cfg Hc. split; [|split; [|split; [|split]]].
@@ -666,10 +690,10 @@ Definition in_meta_key (ta : list tok) : bool :=
   | [] => false
   end.
 
-(* where the statement lets a comment go "between words": after a word, before a blank, not
-   inside braces, not inside a metadata key *)
+(* where the statement lets a comment go "between words": after a word or a number, before a blank,
+   not inside braces, not inside a metadata key *)
 Definition between_words (ta tb : list tok) : Prop :=
-  (exists p w, ta = p ++ [w] /\ kind w = KWord) /\ (exists b r, tb = b :: r /\ kind b = KWs)
+  (exists p w, ta = p ++ [w] /\ is_single_word_tok (kind w) = true) /\ (exists b r, tb = b :: r /\ kind b = KWs)
   /\ count_kind KOpenBrace ta = count_kind KCloseBrace ta /\ in_meta_key ta = false.
 
 Definition line_end (tb : list tok) : Prop := tb = [] \/ exists n r, tb = n :: r /\ kind n = KNewline.
@@ -772,10 +796,12 @@ Qed.
 Print Assumptions C17_same_events_valid.
 
 (* the statement of the property on the model: as [C17_full_statement], comparing the content and
-   the presence of an error.  Proved parts: the first conjunct ([C17_crlf_events]), the block
-   comment after a word token ([C17_mid_comment_events]: [between_words] with a word, not a
-   number), extra lines ([C17_extra_line_events(_fm)], inserted line not "---"); open: the
-   trailing comment / trailing blanks conjunct. *)
+   the presence of an error, the appended blanks being U+0020 ("trailing spaces": for TAB see
+   [C17_trailing_tab_refuted] below).  Proved, each at document level with and without a front matter:
+   the first conjunct ([C17_crlf_events]), the trailing comment / trailing spaces
+   ([C17_trailing_comment_events(_fm)], [C17_trailing_edits_events]; hypothesis that the edited text has
+   no new front-matter fence), the block comment after a word or number token
+   ([C17_mid_comment_events]), extra lines ([C17_extra_line_events(_fm)], inserted line not "---"). *)
 Definition C17_full_statement_v : Prop :=
   forall (cfg : pcfg) (s : str),
     (no_backslash s = true -> no_lone_cr s = true -> ev_equiv_v (events U cfg (crlf s)) (events U cfg s))
@@ -785,7 +811,7 @@ Definition C17_full_statement_v : Prop :=
        body_split cfg s = (pre, a ++ b) ->
        lex_at U a 0 = Some ta -> lex_at U b (blen a) = Some tb -> lex_at U (a ++ b) 0 = Some (ta ++ tb) ->
        last_open_ended ta = false ->
-       (line_end tb -> forall c w, no_newline c = true -> forallb is_blank w = true ->
+       (line_end tb -> forall c w, no_newline c = true -> forallb (fun x => x =? 32) w = true ->
           ev_equiv_v (events U cfg (pre ++ a ++ (32 :: line_comment_text c) ++ b)) (events U cfg s)
           /\ ev_equiv_v (events U cfg (pre ++ a ++ w ++ b)) (events U cfg s))
        /\
@@ -901,7 +927,7 @@ Theorem C17_mid_comment_recipe :
     parse_frontmatter cfg (a ++ b) = None -> parse_frontmatter cfg (a ++ block_comment_text c ++ b) = None ->
     lex_at U a 0 = Some (p ++ [wd]) -> lex_at U b (blen a) = Some (ws :: tb') ->
     lex_at U (a ++ b) 0 = Some ((p ++ [wd]) ++ ws :: tb') ->
-    kind wd = KWord -> kind ws = KWs -> mode_after MOut p = MOut ->
+    is_single_word_tok (kind wd) = true -> kind ws = KWs -> mode_after MOut p = MOut ->
     EditAnalysis.crlf_blind yaml_ok -> EditAnalysis.crlf_blind yaml ->
     EditAnalysis.src_no_text_mode U cfg x (a ++ b) ->
     EditAnalysis.same_parse_cfg ac U cfg ci_key yaml_ok find_iq unit_class x Y ystr yeqb yaml
@@ -919,7 +945,7 @@ Theorem C17_mid_comment_recipe_fm :
     parse_frontmatter cfg s = Some fm -> cook_text fm = a ++ b -> a ++ b <> [] ->
     lex_at U a (cook_off fm) = Some (p ++ [wd]) -> lex_at U b (cook_off fm + blen a) = Some (ws :: tb') ->
     lex_at U (a ++ b) (cook_off fm) = Some ((p ++ [wd]) ++ ws :: tb') ->
-    kind wd = KWord -> kind ws = KWs -> mode_after MOut p = MOut ->
+    is_single_word_tok (kind wd) = true -> kind ws = KWs -> mode_after MOut p = MOut ->
     EditAnalysis.crlf_blind yaml_ok -> EditAnalysis.crlf_blind yaml ->
     EditAnalysis.src_no_text_mode U cfg x s ->
     EditAnalysis.same_parse_cfg ac U cfg ci_key yaml_ok find_iq unit_class x Y ystr yeqb yaml
@@ -977,6 +1003,310 @@ Proof.
   - reflexivity.
 Qed.
 
+(* ---------------------------------------------------------------- a trailing comment, trailing spaces *)
+(* U+0020s and / or a line comment appended at the end of ANY line of the Cooklang part - inside a step,
+   a component name, an alias, a note, a quantity, a modifier group, a metadata line, a section header,
+   a paragraph; before a newline token or at the end of the input (Proofs/EditTrail*.v).
+
+   [wsimb e l1 l2]: the right token list is the left one with blank tokens of U+0020 and line comment
+   tokens inserted directly before a newline token (and, when [e], at the very end), and blank tokens
+   standing there lengthened by U+0020s.  The parser is read relationally (logic [HJ], state relation
+   [Sw]): the two runs are in step except at the very end of a step, where the edited side may do one
+   more round of the loop and emit one blank text item.  [fwr]: the relation on event streams that
+   results - same events up to positions; text events up to U+0020s inserted directly before a U+0020
+   (the blank a line break renders to), the last text of a block also up to U+0020s at its end; one
+   blank text item more before the End event, after a component; a warning may come or go (the lone
+   marker of [C17_full_statement_refuted]); an error corresponds to an error. *)
+From CL Require Proofs.EditTrailDefs Proofs.EditTrailStr Proofs.EditTrailPrim Proofs.EditTrailStep Proofs.EditTrailSplit
+  Proofs.EditTrailLex Proofs.EditTrailObs Proofs.EditTrailAnalysis Proofs.EditTrailDoc Proofs.EditTrailFM Proofs.AnalysisTotal.
+
+(* lexer: the tokens of the edited source (the line may already end with blanks: that token grows) *)
+Theorem C17_trailing_lex :
+  forall a b off ta tb w lc,
+    lex_at U a off = Some ta -> lex_at U b (off + blen a) = Some tb -> lex_at U (a ++ b) off = Some (ta ++ tb) ->
+    last_open_ended ta = false -> EditTrailLex.line_end b ->
+    EditTrailDefs.sp32 w ->
+    (lc = [] \/ exists c, lc = line_comment_text c /\ no_newline c = true /\ w <> []) ->
+    exists ts2, lex_at U (a ++ (w ++ lc) ++ b) off = Some ts2 /\ EditTrailDefs.wsimb true (ta ++ tb) ts2.
+Proof. exact (EditTrailLex.trail_tokens U gen_special_breaks gen_eol_breaks gen_blank_ws). Qed.
+Print Assumptions C17_trailing_lex.
+
+(* the text builder: related token lists render to [spins]-related strings, equally blank *)
+Theorem C17_trailing_text :
+  forall cfg e o1 o2 l1 l2,
+    EditTrailDefs.wsimb e l1 l2 -> OR (EditTrailDefs.trw e) (text_of cfg o1 l1) (text_of cfg o2 l2).
+Proof. exact EditTrailStr.wsimb_text. Qed.
+Print Assumptions C17_trailing_text.
+
+(* ... which the name / alias / note / unit / text-value reading (Text::text_trimmed) does not see *)
+Theorem C17_trailing_text_trimmed :
+  forall e t1 t2, EditTrailDefs.trw e t1 t2 -> text_trimmed t1 = text_trimmed t2 /\ is_text_empty t1 = is_text_empty t2.
+Proof. intros e t1 t2 H. split; [exact (EditTrailStr.trw_trimmed e t1 t2 H) | exact (EditTrailStr.trw_empty e t1 t2 H)]. Qed.
+Print Assumptions C17_trailing_text_trimmed.
+
+(* the three components, a line end anywhere inside them (name, alias, modifiers, quantity, note) *)
+Theorem C17_trailing_components :
+  forall cfg,
+    EditTrailDefs.WL EditTrailDefs.W (orel EditTrailStep.crel) (ingredient_p cfg) (ingredient_p cfg) EditTrailDefs.W
+    /\ EditTrailDefs.WL EditTrailDefs.W (orel EditTrailStep.crel) (cookware_p cfg) (cookware_p cfg) EditTrailDefs.W
+    /\ EditTrailDefs.WL EditTrailDefs.W (orel EditTrailStep.crel) (timer_p cfg) (timer_p cfg) EditTrailDefs.W.
+Proof. intro cfg. repeat split; [apply EditTrailStep.ingredient_w | apply EditTrailStep.cookware_w | apply EditTrailStep.timer_w]. Qed.
+Print Assumptions C17_trailing_components.
+
+(* any block (a block that starts with `>>` is one line), block splitting and the block loop *)
+Theorem C17_trailing_block :
+  forall cfg blk1 blk2 evs1 evs2 old,
+    EditTrailDefs.W blk1 blk2 -> EditTrailDefs.evw evs1 evs2 -> (EditInsPrim.hdk blk1 = KMeta -> EditTrailStr.no_nl blk1) ->
+    OR EditTrailDefs.evw (run_block blk1 evs1 (parse_block cfg old)) (run_block blk2 evs2 (parse_block cfg old)).
+Proof. exact EditTrailStep.block_w. Qed.
+Print Assumptions C17_trailing_block.
+
+Theorem C17_trailing_blocks :
+  forall cfg f1 f2 ts1 ts2 old evs1 evs2,
+    EditTrailDefs.W ts1 ts2 -> EditTrailDefs.evw evs1 evs2 ->
+    OR EditTrailDefs.evw (blocks_loop cfg f1 ts1 old evs1) (blocks_loop cfg f2 ts2 old evs2).
+Proof. exact EditTrailDoc.blocks_w. Qed.
+Print Assumptions C17_trailing_blocks.
+
+(* [fwr]-related event streams have the same observation ("up to whitespace inside step text":
+   [observed]) and the same validity *)
+Theorem C17_trailing_observed :
+  forall e1 e2, EditTrailDefs.fwr e1 e2 -> ev_equiv_v (Done e2) (Done e1).
+Proof.
+  intros e1 e2 H. split.
+  - symmetry. exact (EditTrailObs.fwr_observed e1 e2 H).
+  - symmetry. exact (EditTrailObs.fwr_has_error e1 e2 H).
+Qed.
+Print Assumptions C17_trailing_observed.
+
+Lemma OR_fwr_equiv cfg s1 s2 :
+  p_strict_escape cfg = false -> OR EditTrailDefs.fwr (events U cfg s1) (events U cfg s2) ->
+  ev_equiv_v (events U cfg s2) (events U cfg s1).
+Proof.
+  intros Hc H. destruct (events_ok U cfg s1 Hc) as (e1 & E1 & _). destruct (events_ok U cfg s2 Hc) as (e2 & E2 & _).
+  rewrite E1, E2 in *. apply C17_trailing_observed. exact H.
+Qed.
+
+(* DOCUMENT level.  [a | b] is a line end of the source [a ++ b]: a token boundary, [b] empty or
+   starting with LF or CRLF ([line_end]; before CRLF an appended comment takes the CR and the line then
+   ends with LF: the tokens still correspond), the last token of [a] not one that swallows what follows (a line comment, an
+   unterminated block comment, a lone backslash: [last_open_ended]).  Appended: [w], U+0020s, then
+   nothing or a line comment `--c` ([trailing_text]: with the comment at least one blank, as in the
+   statement's ` -- c`).  A line that already ends with blank space is covered (its last token grows).
+   That the edited text has no front matter either needs no hypothesis: an appended blank or comment
+   cannot make a fence line of a line that is none ([C17_trailing_fence]). *)
+Theorem C17_trailing_fence :
+  forall cfg a b w lc,
+    parse_frontmatter cfg (a ++ b) = None -> EditTrailLex.line_end b -> EditTrailDoc.trailing_text w lc ->
+    parse_frontmatter cfg (a ++ (w ++ lc) ++ b) = None.
+Proof. exact EditTrailFM.parse_frontmatter_trail_none. Qed.
+Print Assumptions C17_trailing_fence.
+
+Theorem C17_trailing_comment_events :
+  forall cfg a b ta tb w lc,
+    p_strict_escape cfg = false ->
+    parse_frontmatter cfg (a ++ b) = None ->
+    lex_at U a 0 = Some ta -> lex_at U b (blen a) = Some tb -> lex_at U (a ++ b) 0 = Some (ta ++ tb) ->
+    last_open_ended ta = false -> EditTrailLex.line_end b -> EditTrailDoc.trailing_text w lc ->
+    ev_equiv_v (events U cfg (a ++ (w ++ lc) ++ b)) (events U cfg (a ++ b)).
+Proof.
+  intros cfg a b ta tb w lc Hs F1 La Lb Lab Ho Hb Ht. apply OR_fwr_equiv; [exact Hs|].
+  pose proof (C17_trailing_fence cfg a b w lc F1 Hb Ht) as F2.
+  apply (EditTrailDoc.trail_events U cfg gen_special_breaks gen_eol_breaks gen_blank_ws a b ta tb w lc); assumption.
+Qed.
+Print Assumptions C17_trailing_comment_events.
+
+Theorem C17_trailing_comment_events_fm :
+  forall cfg s fm a b ta tb w lc,
+    p_strict_escape cfg = false ->
+    parse_frontmatter cfg s = Some fm -> cook_text fm = a ++ b -> a ++ b <> [] ->
+    lex_at U a (cook_off fm) = Some ta -> lex_at U b (cook_off fm + blen a) = Some tb ->
+    lex_at U (a ++ b) (cook_off fm) = Some (ta ++ tb) ->
+    last_open_ended ta = false -> EditTrailLex.line_end b -> EditTrailDoc.trailing_text w lc ->
+    ev_equiv_v (events U cfg (take_bytes s (cook_off fm) ++ a ++ (w ++ lc) ++ b)) (events U cfg s).
+Proof.
+  intros cfg s fm a b ta tb w lc Hs F C Hne La Lb Lab Ho Hb Ht. apply OR_fwr_equiv; [exact Hs|].
+  apply (EditTrailDoc.trail_events_fm U cfg gen_special_breaks gen_eol_breaks gen_blank_ws s fm a b ta tb w lc); assumption.
+Qed.
+Print Assumptions C17_trailing_comment_events_fm.
+
+(* the two edits of the statement, spelled as there: ` --c`, and U+0020s alone *)
+Theorem C17_trailing_edits_events :
+  forall cfg a b ta tb,
+    p_strict_escape cfg = false -> parse_frontmatter cfg (a ++ b) = None ->
+    lex_at U a 0 = Some ta -> lex_at U b (blen a) = Some tb -> lex_at U (a ++ b) 0 = Some (ta ++ tb) ->
+    last_open_ended ta = false -> EditTrailLex.line_end b ->
+    (forall c, no_newline c = true ->
+       ev_equiv_v (events U cfg (a ++ (32 :: line_comment_text c) ++ b)) (events U cfg (a ++ b)))
+    /\ (forall w, EditTrailDefs.sp32 w ->
+          ev_equiv_v (events U cfg (a ++ w ++ b)) (events U cfg (a ++ b))).
+Proof.
+  intros cfg a b ta tb Hs F1 La Lb Lab Ho Hb. split.
+  - intros c Hc. change (32 :: line_comment_text c) with ([32] ++ line_comment_text c) in *.
+    apply (C17_trailing_comment_events cfg a b ta tb [32] (line_comment_text c)); try assumption.
+    split; [reflexivity|]. right. exists c. split; [reflexivity|]. split; [exact Hc | discriminate].
+  - intros w Hw. rewrite <- (app_nil_r w).
+    apply (C17_trailing_comment_events cfg a b ta tb w []); try assumption. split; [exact Hw | left; reflexivity].
+Qed.
+Print Assumptions C17_trailing_edits_events.
+
+(* ANALYSIS up to blank space.  [rnorm] is the normal form of a recipe "up to whitespace inside step
+   text" (Proofs/EditTrailAnalysis.v): in every step adjacent text items merged, runs of blanks and tabs
+   squeezed to one U+0020, blanks dropped at the start and the end of the step, text items that become
+   empty dropped ([norm_items], the shape of [norm] above); a paragraph squeezed and trimmed
+   ([norm_text]); names, tables, numbers, relations, step numbers, the inline count exactly.
+   [fwr]-related event streams give analysis outcomes with the same normal form, the same validity,
+   the same panic site.  Hypotheses: as for [C17_analysis_blind], and [iq_ok]: the INLINE_QUANTITIES
+   extension is off, or the oracle [find_iq] (find_inline_quantity) reads texts that differ in runs
+   of U+0020 alike ([iq_ws_stable]: None together; else the texts before the match related strictly
+   and the remainders related) and shrinks its argument ([iq_shrinks] of C03_parse_total). *)
+Theorem C17_analysis_wblind :
+  forall ci_key yaml_ok find_iq unit_class x acfg in1 in2 e1 e2,
+    EditAnalysis.crlf_blind yaml_ok ->
+    EditTrailDefs.fwr e1 e2 -> EditAnalysis.no_text_mode x e1 -> EditTrailDoc.iq_ok x find_iq ->
+    EditTrailDoc.orelw
+      (Analysis.analyse ci_key yaml_ok find_iq unit_class in1 x acfg (EventBridge.abstract_events e1))
+      (Analysis.analyse ci_key yaml_ok find_iq unit_class in2 x acfg (EventBridge.abstract_events e2)).
+Proof.
+  intros ci_key yaml_ok find_iq unit_class x acfg in1 in2 e1 e2 By H Hm Hq.
+  pose proof (EditTrailAnalysis.analyse_wblind_iq ci_key yaml_ok find_iq unit_class x acfg By in1 in2 e1 e2 H Hm Hq) as X.
+  unfold EditTrailDoc.orelw.
+  destruct (Analysis.analyse ci_key yaml_ok find_iq unit_class in1 x acfg (EventBridge.abstract_events e1)) as [[r1 v1]|p1];
+    destruct (Analysis.analyse ci_key yaml_ok find_iq unit_class in2 x acfg (EventBridge.abstract_events e2)) as [[r2 v2]|p2]; exact X.
+Qed.
+Print Assumptions C17_analysis_wblind.
+
+Theorem C17_metadata_wblind :
+  forall (Y : Type) (ystr : str -> Y) (yeqb : Y -> Y -> bool) (yaml : str -> option (list (Y * Y))) modes e1 e2,
+    EditAnalysis.crlf_blind yaml -> EditTrailDefs.fwr e1 e2 ->
+    MetaMap.metadata_of Y ystr yeqb yaml modes e1 = MetaMap.metadata_of Y ystr yeqb yaml modes e2.
+Proof. intros. apply EditTrailDoc.metadata_wblind; assumption. Qed.
+Print Assumptions C17_metadata_wblind.
+
+(* CooklangParser::parse: [same_parse_w] = the two outcomes have the same normal form [rnorm], the same
+   validity, the same panic site if any (no panic: C03_parse_total), and the metadata maps are EQUAL *)
+Theorem C17_trailing_comment_recipe :
+  forall ac cfg ci_key yaml_ok find_iq unit_class x Y ystr yeqb yaml a b ta tb w lc,
+    p_strict_escape cfg = false ->
+    parse_frontmatter cfg (a ++ b) = None ->
+    lex_at U a 0 = Some ta -> lex_at U b (blen a) = Some tb -> lex_at U (a ++ b) 0 = Some (ta ++ tb) ->
+    last_open_ended ta = false -> EditTrailLex.line_end b -> EditTrailDoc.trailing_text w lc ->
+    EditAnalysis.crlf_blind yaml_ok -> EditAnalysis.crlf_blind yaml ->
+    EditAnalysis.src_no_text_mode U cfg x (a ++ b) -> EditTrailDoc.iq_ok x find_iq ->
+    EditTrailDoc.same_parse_w ac U cfg ci_key yaml_ok find_iq unit_class x Y ystr yeqb yaml (a ++ b) (a ++ (w ++ lc) ++ b).
+Proof.
+  intros ac cfg ci_key yaml_ok find_iq unit_class x Y ystr yeqb yaml a b ta tb w lc Hs F1 La Lb Lab Ho Hb Ht By Bm Hm Hq.
+  pose proof (C17_trailing_fence cfg a b w lc F1 Hb Ht) as F2.
+  apply EditTrailDoc.parse_wblind; try assumption.
+  apply (EditTrailDoc.trail_events U cfg gen_special_breaks gen_eol_breaks gen_blank_ws a b ta tb w lc); assumption.
+Qed.
+Print Assumptions C17_trailing_comment_recipe.
+
+Theorem C17_trailing_comment_recipe_fm :
+  forall ac cfg ci_key yaml_ok find_iq unit_class x Y ystr yeqb yaml s fm a b ta tb w lc,
+    p_strict_escape cfg = false ->
+    parse_frontmatter cfg s = Some fm -> cook_text fm = a ++ b -> a ++ b <> [] ->
+    lex_at U a (cook_off fm) = Some ta -> lex_at U b (cook_off fm + blen a) = Some tb ->
+    lex_at U (a ++ b) (cook_off fm) = Some (ta ++ tb) ->
+    last_open_ended ta = false -> EditTrailLex.line_end b -> EditTrailDoc.trailing_text w lc ->
+    EditAnalysis.crlf_blind yaml_ok -> EditAnalysis.crlf_blind yaml ->
+    EditAnalysis.src_no_text_mode U cfg x s -> EditTrailDoc.iq_ok x find_iq ->
+    EditTrailDoc.same_parse_w ac U cfg ci_key yaml_ok find_iq unit_class x Y ystr yeqb yaml
+      s (take_bytes s (cook_off fm) ++ a ++ (w ++ lc) ++ b).
+Proof.
+  intros ac cfg ci_key yaml_ok find_iq unit_class x Y ystr yeqb yaml s fm a b ta tb w lc Hs F C Hne La Lb Lab Ho Hb Ht By Bm Hm Hq.
+  apply EditTrailDoc.parse_wblind; try assumption.
+  apply (EditTrailDoc.trail_events_fm U cfg gen_special_breaks gen_eol_breaks gen_blank_ws s fm a b ta tb w lc); assumption.
+Qed.
+Print Assumptions C17_trailing_comment_recipe_fm.
+
+(* the hypotheses are satisfiable: "Mix @extra virgin" | "\nolive oil{} well", the line end INSIDE the
+   component name, ` --c` appended; all extensions on; an inline-quantity oracle that never finds one *)
+Definition tr_a : str := [77;105;120;32;64;101;120;116;114;97;32;118;105;114;103;105;110].
+Definition tr_b : str := [10;111;108;105;118;101;32;111;105;108;123;125;32;119;101;108;108].
+
+Example C17_trailing_hypotheses_satisfiable :
+  exists ta tb,
+    lex_at U tr_a 0 = Some ta /\ lex_at U tr_b (blen tr_a) = Some tb /\ lex_at U (tr_a ++ tr_b) 0 = Some (ta ++ tb)
+    /\ last_open_ended ta = false /\ EditTrailLex.line_end tr_b
+    /\ EditTrailDoc.trailing_text [32] (line_comment_text [99])
+    /\ parse_frontmatter cfg_all (tr_a ++ tr_b) = None
+    /\ EditAnalysis.src_no_text_mode U cfg_all x_all (tr_a ++ tr_b)
+    /\ EditTrailDoc.iq_ok x_all (fun _ => None).
+Proof.
+  eexists. eexists. split; [vm_compute; reflexivity|]. split; [vm_compute; reflexivity|]. split; [vm_compute; reflexivity|].
+  split; [vm_compute; reflexivity|]. split; [right; left; eexists; reflexivity|].
+  split; [split; [reflexivity | right; exists [99]; split; [reflexivity | split; [reflexivity | discriminate]]]|].
+  split; [vm_compute; reflexivity|].
+  split; [apply EditAnalysis.src_no_text_mode_dec; vm_compute; reflexivity|].
+  right. split.
+  - intros e s1 s2 _. exact I.
+  - intros s b0 a0 H. discriminate H.
+Qed.
+
+(* what the theorem says there: the ingredient is called "extra virgin olive oil" on both sides *)
+Example C17_trailing_name_instance :
+  match events U cfg_all (tr_a ++ tr_b), events U cfg_all (tr_a ++ ([32] ++ line_comment_text [99]) ++ tr_b) with
+  | Done e1, Done e2 => map proj e1 = map proj e2
+                        /\ existsb (fun e => match e with
+                                             | PIngr _ _ n _ _ _ => str_eqb n [101;120;116;114;97;32;118;105;114;103;105;110;32;111;108;105;118;101;32;111;105;108]
+                                             | _ => false end) (map proj e1) = true
+  | _, _ => False
+  end.
+Proof. vm_compute. split; reflexivity. Qed.
+
+(* TRAILING TAB: the statement says "trailing spaces".  With a TAB the generalisation is false on the
+   model, and on the implementation (replayed through harness/src/bin/recipe.rs, both profiles):
+   "Mix @extra virgin<TAB>\nolive oil{} well" names the ingredient "extra virgin<TAB> olive oil" -
+   Text::text_trimmed collapses runs of U+0020 only, and the line break renders as U+0020 after the
+   TAB.  Every other hypothesis of [C17_trailing_comment_events] holds.  (The monitor appends U+0020
+   only; TAB / mixed blanks are a reported probe.) *)
+Theorem C17_trailing_tab_refuted :
+  exists ta tb,
+    parse_frontmatter cfg_plain (tr_a ++ tr_b) = None /\ parse_frontmatter cfg_plain (tr_a ++ [9] ++ tr_b) = None
+    /\ lex_at U tr_a 0 = Some ta /\ lex_at U tr_b (blen tr_a) = Some tb /\ lex_at U (tr_a ++ tr_b) 0 = Some (ta ++ tb)
+    /\ last_open_ended ta = false /\ EditTrailLex.line_end tr_b /\ forallb is_blank [9] = true
+    /\ ~ ev_equiv_v (events U cfg_plain (tr_a ++ [9] ++ tr_b)) (events U cfg_plain (tr_a ++ tr_b)).
+Proof.
+  eexists. eexists. split; [vm_compute; reflexivity|]. split; [vm_compute; reflexivity|].
+  split; [vm_compute; reflexivity|]. split; [vm_compute; reflexivity|]. split; [vm_compute; reflexivity|].
+  split; [vm_compute; reflexivity|]. split; [right; left; eexists; reflexivity|]. split; [reflexivity|].
+  intro H.
+  assert (E : exists e1 e2, events U cfg_plain (tr_a ++ [9] ++ tr_b) = Done e1 /\ events U cfg_plain (tr_a ++ tr_b) = Done e2
+                            /\ observed e1 <> observed e2).
+  { eexists. eexists. split; [vm_compute; reflexivity|]. split; [vm_compute; reflexivity|]. vm_compute. discriminate. }
+  destruct E as (e1 & e2 & E1 & E2 & D). rewrite E1, E2 in H. destruct H as [H _]. exact (D H).
+Qed.
+Print Assumptions C17_trailing_tab_refuted.
+
+(* a block comment between the value and the unit of an inline quantity, "Bake at 180" | " C now" (every
+   hypothesis of [C17_mid_comment_recipe] holds, [C17_mid_comment_number_satisfiable]): the step text is
+   assembled without the comment, so whatever the inline-quantity oracle answers it is asked the same *)
+Example C17_mid_comment_inline_instance :
+  forall ci_key find_iq unit_class,
+    EditAnalysis.same_parse_cfg Analysis.cfgF U cfg_all ci_key (fun _ => true) find_iq unit_class x_all
+      (list N) (fun s => s) (fun _ _ => true) (fun _ => None)
+      ([66; 97; 107; 101; 32; 97; 116; 32; 49; 56; 48] ++ [32; 67; 32; 110; 111; 119])
+      ([66; 97; 107; 101; 32; 97; 116; 32; 49; 56; 48] ++ block_comment_text [99] ++ [32; 67; 32; 110; 111; 119]).
+Proof.
+  intros ci_key find_iq unit_class.
+  refine (C17_mid_comment_recipe Analysis.cfgF cfg_all ci_key (fun _ => true) find_iq unit_class x_all
+            (list N) (fun s => s) (fun _ _ => true) (fun _ => None)
+            [66; 97; 107; 101; 32; 97; 116; 32; 49; 56; 48] [32; 67; 32; 110; 111; 119] [99] _ _ _ _
+            eq_refl eq_refl _ _ _ _ _ _ _ _ _ _ _).
+  - vm_compute. reflexivity.
+  - vm_compute. reflexivity.
+  - instantiate (2 := [_; _; _; _]). vm_compute. reflexivity.
+  - vm_compute. reflexivity.
+  - vm_compute. reflexivity.
+  - reflexivity.
+  - reflexivity.
+  - reflexivity.
+  - intros a b _. reflexivity.
+  - intros a b _. reflexivity.
+  - apply EditAnalysis.src_no_text_mode_dec. vm_compute. reflexivity.
+Qed.
+
 (* ---------------------------------------------------------------- text mode *)
 (* ">> [mode]: text\n@sea" | " salt{}": the comment goes after the word "sea", before the blank,
    outside braces - every hypothesis of [C17_mid_comment_events] holds and the events are
@@ -995,7 +1325,7 @@ Theorem C17_text_mode_refuted_before_fix :
     /\ parse_frontmatter cfg_all (tm_a ++ block_comment_text [99] ++ tm_b) = None
     /\ lex_at U tm_a 0 = Some (p ++ [wd]) /\ lex_at U tm_b (blen tm_a) = Some (ws :: tb')
     /\ lex_at U (tm_a ++ tm_b) 0 = Some ((p ++ [wd]) ++ ws :: tb')
-    /\ kind wd = KWord /\ kind ws = KWs /\ mode_after MOut p = MOut
+    /\ is_single_word_tok (kind wd) = true /\ kind ws = KWs /\ mode_after MOut p = MOut
     /\ forall ci_key yaml_ok find_iq unit_class,
          EditAnalysis.parse_model_cfg Analysis.cfgT U cfg_all ci_key yaml_ok find_iq unit_class x_all
            (tm_a ++ block_comment_text [99] ++ tm_b)
